@@ -305,7 +305,9 @@ def _analyse_raise(C, r: ast.Raise):
                 return ("violation", L, r, f"an alias for an unknown module is not rejected on every path: the error is only raised under the further condition `{norm(M.stmt_of(r) if False else _if_text(M, r), 70)}`", named)
         return ("unknown", L, r, f"condition of `{norm(r.exc, 50)}` not recognised as 'the aliased module is not a node'", named)
     # ---- shapes (ii) / (iii): a collected set of unknown names / the first unknown name
-    f = M.guard(r)
+    # (conditions that already hold where the aliases are read - 'the option was given' in whatever spelling - are context)
+    context = {id(c[0]) for x in M.alias_sources() for c in M.cond_list(M.stmt_of(x))} | {id(c[0]) for x in M.alias_sources() for c in M.history_conds(x)}
+    f = f_and([M.formula(e, pol) for e, pol in M.cond_list(r) if id(e) not in context and not C.is_presence_test(e)])
     u_atoms, other = {}, []
     for a in atoms_of(f):
         e = parse_atom(a)
